@@ -144,6 +144,21 @@ Qed.
 (* ------------------------------------------------------------------ *)
 (* Raft::restore *)
 
+(* the snapshot cannot be the answer to a request of this node: none is pending, or
+   the snapshot is below the requested index (repo commit 5a0d8a9) *)
+Definition unrequested (r : raft) (s : snapshot) : bool :=
+  (r_pending_request_snapshot r =? INVALID_INDEX) || (s_index s <? r_pending_request_snapshot r).
+
+Lemma unrequested_true r s :
+  unrequested r s = true <->
+  (r_pending_request_snapshot r = 0 \/ s_index s < r_pending_request_snapshot r).
+Proof. unfold unrequested, INVALID_INDEX. lia. Qed.
+
+Lemma unrequested_false r s :
+  unrequested r s = false <->
+  (r_pending_request_snapshot r <> 0 /\ r_pending_request_snapshot r <= s_index s).
+Proof. unfold unrequested, INVALID_INDEX. lia. Qed.
+
 Definition snap_member (r : raft) (s : snapshot) : bool :=
   IdSet.mem (r_id r) (cs_voters (s_cs s)) || IdSet.mem (r_id r) (cs_learners (s_cs s))
   || IdSet.mem (r_id r) (cs_voters_outgoing (s_cs s)).
@@ -190,7 +205,7 @@ Lemma restore_true_inv r s r' :
   restore r s = Ok (r', true) ->
   committed (r_log r) <= s_index s /\ r_state r = Follower /\ snap_member r s = true /\
   (exists mt, match_term (r_log r) (s_index s) (s_term s) = Ok mt /\
-              ((r_pending_request_snapshot r =? INVALID_INDEX) && mt) = false) /\
+              (unrequested r s && mt) = false) /\
   s_index s <> 0 /\
   exists c' ids', ConfChange.restore empty_tracker (s_cs s) = ROk (c', ids') /\
     conf_state_eq (s_cs s) (to_conf_state c') = true /\
@@ -260,7 +275,7 @@ Theorem restore_guard r s r' :
   committed (r_log r) <= s_index s /\ r_state r = Follower /\
   (IdSet.mem (r_id r) (cs_voters (s_cs s)) = true \/ IdSet.mem (r_id r) (cs_learners (s_cs s)) = true
    \/ IdSet.mem (r_id r) (cs_voters_outgoing (s_cs s)) = true) /\
-  ~ (r_pending_request_snapshot r = 0 /\
+  ~ ((r_pending_request_snapshot r = 0 \/ s_index s < r_pending_request_snapshot r) /\
      match_term (r_log r) (s_index s) (s_term s) = Ok true) /\
   s_index s <> 0.
 Proof.
@@ -270,7 +285,8 @@ Proof.
   { unfold snap_member in C0. apply orb_prop in C0. destruct C0 as [C0|C0]; [|auto].
     apply orb_prop in C0. destruct C0; auto. }
   split; [|exact E].
-  intros [P Q]. rewrite Q in D1. inversion D1; subst mt. rewrite P in D2. discriminate.
+  intros [P Q]. rewrite Q in D1. inversion D1; subst mt.
+  apply unrequested_true in P. rewrite P in D2. discriminate.
 Qed.
 
 (* 2. restore_effect: the closed form and its consequences *)
@@ -327,7 +343,7 @@ Qed.
 (* 3. restore_fastforward *)
 Lemma restore_fastforward_eq r s :
   committed (r_log r) <= s_index s -> r_state r = Follower -> snap_member r s = true ->
-  r_pending_request_snapshot r = 0 ->
+  (r_pending_request_snapshot r = 0 \/ s_index s < r_pending_request_snapshot r) ->
   match_term (r_log r) (s_index s) (s_term s) = Ok true ->
   restore r s = (l' <- RaftLog.commit_to (r_log r) (s_index s) ;; Ok (r <| r_log := l' |>, false)).
 Proof.
@@ -335,12 +351,13 @@ Proof.
   destruct (s_index s <? committed (r_log r)) eqn:E0; [lia|].
   rewrite B. cbn [role_eqb negb].
   unfold snap_member in C0. rewrite C0. cbn [negb].
-  rewrite E. cbn [bind]. rewrite D. reflexivity.
+  rewrite E. cbn [bind]. apply unrequested_true in D. unfold unrequested in D. rewrite D.
+  reflexivity.
 Qed.
 
 Theorem restore_fastforward r s :
   committed (r_log r) <= s_index s -> r_state r = Follower -> snap_member r s = true ->
-  r_pending_request_snapshot r = 0 ->
+  (r_pending_request_snapshot r = 0 \/ s_index s < r_pending_request_snapshot r) ->
   match_term (r_log r) (s_index s) (s_term s) = Ok true ->
   (s_index s <= last_index (r_log r) \/ s_index s = committed (r_log r) ->
    restore r s = Ok (r <| r_log := RaftLog.set_committed (r_log r) (s_index s) |>, false)) /\
@@ -393,30 +410,39 @@ Proof.
   rewrite B. cbn [role_eqb negb]. unfold snap_member in C0. rewrite C0. reflexivity.
 Qed.
 
-(* F2, universal form: while a snapshot request is pending, every snapshot that passes
-   the guards is installed (never fast-forwarded), whether or not it matches the log;
-   the log then ends at the snapshot index *)
+(* the install path can only answer true *)
+Lemma restore_install_path r s r' b :
+  committed (r_log r) <= s_index s -> r_state r = Follower -> snap_member r s = true ->
+  (forall mt, match_term (r_log r) (s_index s) (s_term s) = Ok mt ->
+              unrequested r s && mt = false) ->
+  restore r s = Ok (r', b) -> b = true.
+Proof.
+  intros A B C0 D H. unfold restore in H.
+  destruct (s_index s <? committed (r_log r)) eqn:E; [lia|].
+  rewrite B in H. cbn [role_eqb negb] in H. unfold snap_member in C0. rewrite C0 in H.
+  cbn [negb] in H. inv_bind H. specialize (D _ Hx). unfold unrequested in D. rewrite D in H.
+  inv_bind H.
+  destruct (ConfChange.restore empty_tracker (s_cs s)) as [[c' ids']|e]; [|discriminate].
+  apply bind_ok in H; destruct H as ([r1 ncs] & Hpc & H).
+  case_if H; [discriminate|].
+  destruct (get_pr r1 (r_id r1)); [|discriminate].
+  case_if H; [discriminate|]. inversion H. reflexivity.
+Qed.
+
+(* A snapshot that can answer the node's own request (request pending and the snapshot
+   is not below the requested index) is installed whenever it passes the guards, whether
+   or not it matches the log (never fast-forwarded); the log then ends at the snapshot. *)
 Theorem restore_requested_installs r s r' b :
   committed (r_log r) <= s_index s -> r_state r = Follower -> snap_member r s = true ->
-  r_pending_request_snapshot r <> 0 ->
+  r_pending_request_snapshot r <> 0 -> r_pending_request_snapshot r <= s_index s ->
   restore r s = Ok (r', b) ->
   b = true /\ last_index (r_log r') = s_index s /\ u_entries (unst (r_log r')) = [] /\
   committed (r_log r') = s_index s.
 Proof.
-  intros A B C0 D H.
+  intros A B C0 D D' H.
   assert (Hb : b = true).
-  { unfold restore in H.
-    destruct (s_index s <? committed (r_log r)) eqn:E; [lia|].
-    rewrite B in H. cbn [role_eqb negb] in H. unfold snap_member in C0. rewrite C0 in H.
-    cbn [negb] in H. inv_bind H.
-    destruct (r_pending_request_snapshot r =? INVALID_INDEX) eqn:E1;
-      [apply N.eqb_eq in E1; unfold INVALID_INDEX in E1; congruence|].
-    cbn [andb] in H. inv_bind H.
-    destruct (ConfChange.restore empty_tracker (s_cs s)) as [[c' ids']|e]; [|discriminate].
-    apply bind_ok in H; destruct H as ([r1 ncs] & Hpc & H).
-    case_if H; [discriminate|].
-    destruct (get_pr r1 (r_id r1)); [|discriminate].
-    case_if H; [discriminate|]. inversion H. reflexivity. }
+  { eapply restore_install_path; try eassumption. intros mt _.
+    rewrite (proj2 (unrequested_false r s) (conj D D')). reflexivity. }
   subst b. split; [reflexivity|].
   apply restore_true_inv in H. destruct H as (_ & _ & _ & _ & _ & c' & ids' & _ & _ & _ & ->).
   repeat split; reflexivity.
@@ -431,7 +457,8 @@ Lemma restore_cases r s r' b :
   \/ (b = false /\ committed (r_log r) <= s_index s /\ r_state r <> Follower /\
       become_follower r (r_term r + 1) INVALID_ID = Ok r')
   \/ (b = false /\ committed (r_log r) <= s_index s /\ r_state r = Follower /\
-      snap_member r s = true /\ r_pending_request_snapshot r = 0 /\
+      snap_member r s = true /\
+      (r_pending_request_snapshot r = 0 \/ s_index s < r_pending_request_snapshot r) /\
       match_term (r_log r) (s_index s) (s_term s) = Ok true /\
       r' = r <| r_log := RaftLog.set_committed (r_log r) (s_index s) |>)
   \/ (b = true /\ exists c' ids', r' = installed r s c' ids').
@@ -451,26 +478,44 @@ Proof.
   { right. right. right. split; [reflexivity|]. apply restore_true_inv in H.
     destruct H as (_ & _ & _ & _ & _ & c' & ids' & _ & _ & _ & ->). eauto. }
   right. right. left.
-  destruct (N.eq_dec (r_pending_request_snapshot r) 0) as [P|P].
-  2:{ destruct (restore_requested_installs r s r' false A E1 E2 P H) as [X _]. discriminate. }
-  unfold restore in H. rewrite E in H. rewrite E1 in H. cbn [role_eqb negb] in H.
-  unfold snap_member in E2. rewrite E2 in H. cbn [negb] in H. inv_bind H.
-  rewrite P in H. change (0 =? INVALID_INDEX) with true in H. cbn [andb] in H.
-  destruct x as [|].
-  - inv_bind H. inversion H; subst; clear H.
-    unfold RaftLog.commit_to in Hx0.
-    assert (Hl : x = RaftLog.set_committed (r_log r) (s_index s)).
-    { destruct (s_index s <=? committed (r_log r)) eqn:E3.
-      - inversion Hx0; subst. assert (Heq : s_index s = committed (r_log r)) by lia.
-        rewrite Heq, set_committed_same. reflexivity.
-      - destruct (last_index (r_log r) <? s_index s); [discriminate|]. inversion Hx0. reflexivity. }
-    subst x. repeat split; auto.
-  - exfalso. inv_bind H.
-    destruct (ConfChange.restore empty_tracker (s_cs s)) as [[c' ids']|e]; [|discriminate].
-    apply bind_ok in H; destruct H as ([r1 ncs] & Hpc & H).
-    case_if H; [discriminate|].
-    destruct (get_pr r1 (r_id r1)); [|discriminate].
-    case_if H; [discriminate|]. inversion H.
+  destruct (match_term (r_log r) (s_index s) (s_term s)) as [mt|st] eqn:EM.
+  2:{ unfold restore in H. rewrite E in H. rewrite E1 in H. cbn [role_eqb negb] in H.
+      unfold snap_member in E2. rewrite E2 in H. cbn [negb] in H. rewrite EM in H. discriminate. }
+  destruct (unrequested r s && mt) eqn:EU.
+  2:{ assert (X : false = true); [|discriminate].
+      eapply (restore_install_path r s r' false A E1 E2); [|exact H].
+      intros mt' Hmt. rewrite EM in Hmt. inversion Hmt; subst. exact EU. }
+  apply andb_prop in EU. destruct EU as [EU ->]. apply unrequested_true in EU.
+  destruct (restore_fastforward r s A E1 E2 EU EM) as [F1 F2].
+  destruct (s_index s <=? last_index (r_log r)) eqn:EL.
+  - rewrite F1 in H by lia. inversion H; subst. repeat split; auto.
+  - destruct (N.eq_dec (s_index s) (committed (r_log r))) as [Q|Q].
+    + rewrite F1 in H by (right; exact Q). inversion H; subst. repeat split; auto.
+    + rewrite F2 in H by lia. discriminate.
+Qed.
+
+(* A snapshot below the requested index that matches the local log is treated as
+   unrequested (repo commit 5a0d8a9): every Ok result is "false" and changes nothing but
+   the commit index; nothing is discarded.  The Ok result exists whenever the snapshot
+   index is within the log. *)
+Theorem matching_snapshot_below_request_discards_nothing r s :
+  committed (r_log r) <= s_index s -> r_state r = Follower -> snap_member r s = true ->
+  s_index s < r_pending_request_snapshot r ->
+  match_term (r_log r) (s_index s) (s_term s) = Ok true ->
+  (forall r' b, restore r s = Ok (r', b) ->
+     b = false /\ r' = r <| r_log := RaftLog.set_committed (r_log r) (s_index s) |>) /\
+  (s_index s <= last_index (r_log r) ->
+   restore r s = Ok (r <| r_log := RaftLog.set_committed (r_log r) (s_index s) |>, false)).
+Proof.
+  intros A B C0 D E.
+  destruct (restore_fastforward r s A B C0 (or_intror D) E) as [F1 F2].
+  split; [|intros L; apply F1; left; exact L].
+  intros r' b H.
+  destruct (s_index s <=? last_index (r_log r)) eqn:EL.
+  - rewrite F1 in H by lia. inversion H; subst. auto.
+  - destruct (N.eq_dec (s_index s) (committed (r_log r))) as [Q|Q].
+    + rewrite F1 in H by (right; exact Q). inversion H; subst. auto.
+    + rewrite F2 in H by lia. discriminate.
 Qed.
 
 Lemma restore_msgs r s r' b : restore r s = Ok (r', b) -> r_msgs r' = r_msgs r /\ r_id r' = r_id r.
@@ -500,8 +545,9 @@ Proof.
 Qed.
 
 (* ------------------------------------------------------------------ *)
-(* F2 witness: a follower that has requested a snapshot installs a duplicated
-   OLDER snapshot that matches its log, and loses the entry above it. *)
+(* F2 witness state: a follower that has requested a snapshot (pending = 5) receives a
+   duplicated OLDER snapshot (4) that matches its log.  Before repo commit 5a0d8a9 it
+   was installed and entry 5 was lost; see the regression guard below. *)
 Definition w_ent (i : N) : entry := mkEntry 0 1 i [] [].
 Definition w_cs : conf_state := mkCS [1; 2; 3] [] [] [] false.
 Definition w_store : MemStorage.mem :=
@@ -528,33 +574,62 @@ Lemma w_requested_ok :
     r_pending_request_snapshot r1 = 5 /\ r_log r1 = w_log.
 Proof. eexists. split; [vm_compute; reflexivity|]. split; vm_compute; auto. Qed.
 
-Theorem requested_snapshot_truncates_witness :
+(* REGRESSION GUARD for F2 (fixed by repo commit 5a0d8a9).  In exactly the state that
+   used to lose entry 5 — request pending at 5, duplicated older snapshot (4, matching
+   term) — restore now answers false and only fast-forwards: the log is unchanged. *)
+Theorem requested_stale_snapshot_keeps_log :
   let r := w_requested in
   let s := w_snap in
   r_state r = Follower /\ r_pending_request_snapshot r = 5 /\
   last_index (r_log r) = 5 /\ persisted (r_log r) = 5 /\ committed (r_log r) = 4 /\
   s_index s = 4 /\ match_term (r_log r) (s_index s) (s_term s) = Ok true /\
   RaftLog.term (r_log r) 5 = Ok (SOk 1) /\
-  exists r', restore r s = Ok (r', true) /\
-    last_index (r_log r') = 4 /\ RaftLog.term (r_log r') 5 = Ok (SOk 0) /\
-    persisted (r_log r') = 4 /\ u_snapshot (unst (r_log r')) = Some s.
+  exists r', restore r s = Ok (r', false) /\
+    r_log r' = r_log r /\ last_index (r_log r') = 5 /\ RaftLog.term (r_log r') 5 = Ok (SOk 1) /\
+    persisted (r_log r') = 5 /\ u_snapshot (unst (r_log r')) = None /\
+    r_pending_request_snapshot r' = 5.
 Proof.
   cbn zeta. repeat (split; [vm_compute; reflexivity|]).
   eexists. split; [vm_compute; reflexivity|]. repeat split; vm_compute; reflexivity.
 Qed.
 
-(* the same through the public step function: MsgSnapshot(4, term 1) from the leader *)
-Theorem requested_snapshot_truncates_step :
+(* the same through the public step function: the reply carries the commit index *)
+Theorem requested_stale_snapshot_keeps_log_step :
   exists r' mm,
     step w_requested w_msg = Ok (r', E_OK) /\
-    last_index (r_log w_requested) = 5 /\ last_index (r_log r') = 4 /\
+    last_index (r_log w_requested) = 5 /\ last_index (r_log r') = 5 /\
+    r_log r' = r_log w_requested /\
     r_msgs r' = r_msgs w_requested ++ [mm] /\
     m_type mm = MsgAppendResponse /\ m_index mm = 4 /\ m_reject mm = false.
 Proof.
   eexists. eexists. split; [vm_compute; reflexivity|]. repeat split; vm_compute; reflexivity.
 Qed.
 
-(* contrast: without a pending request the very same message only fast-forwards *)
+(* positive examples: a snapshot at or above the requested index IS installed *)
+Theorem requested_snapshot_at_request_installed :
+  let r := w_requested in
+  let s := mkSnap 5 1 w_cs in
+  match_term (r_log r) (s_index s) (s_term s) = Ok true /\
+  exists r', restore r s = Ok (r', true) /\
+    last_index (r_log r') = 5 /\ committed (r_log r') = 5 /\
+    u_snapshot (unst (r_log r')) = Some s /\ r_pending_request_snapshot r' = 0.
+Proof.
+  cbn zeta. split; [vm_compute; reflexivity|].
+  eexists. split; [vm_compute; reflexivity|]. repeat split; vm_compute; reflexivity.
+Qed.
+
+Theorem requested_snapshot_above_request_installed :
+  let r := w_requested in
+  let s := mkSnap 6 1 w_cs in
+  exists r', restore r s = Ok (r', true) /\
+    last_index (r_log r') = 6 /\ committed (r_log r') = 6 /\
+    RaftLog.term (r_log r') 6 = Ok (SOk 1) /\
+    u_snapshot (unst (r_log r')) = Some s /\ r_pending_request_snapshot r' = 0.
+Proof.
+  cbn zeta. eexists. split; [vm_compute; reflexivity|]. repeat split; vm_compute; reflexivity.
+Qed.
+
+(* without a pending request the very same message also only fast-forwards *)
 Theorem unrequested_snapshot_keeps_log :
   exists r',
     step w_follower w_msg = Ok (r', E_OK) /\
@@ -937,23 +1012,18 @@ Section Compaction.
     destruct (MemStorage.last_index m + 1 <? hi); [reflexivity|].
     change (trig_log m') with (trig_log m).
     destruct (trig_log m && can_async ctx); [reflexivity|].
-    assert (Hk : (k < length (entries m))%nat) by (unfold next_of in H2; subst k; lia).
-    destruct (skipn_cons_nth (entries m) k Hk) as (e' & t' & Hsk & Hn).
-    assert (He' : e_index e' = ci).
-    { pose proof (entries_head_index m' e' t') as Hh. subst m'. cbn [entries set_entries] in Hh.
-      rewrite (Hh Hsk). exact Hf. }
-    destruct (entries m) as [|e0 t0] eqn:El; [cbn in Hk; lia|].
-    pose proof (entries_head_index m e0 t0 El) as He0.
-    subst m'. cbn [entries set_entries]. rewrite ?El, Hsk, He', He0.
+    cbn [bind].
+    assert (Hk : (k <= length (entries m))%nat) by (unfold next_of in H2; subst k; lia).
     destruct (hi <? ci) eqn:E3; [lia|]. destruct (hi <? first_of m) eqn:E4; [lia|].
     destruct (N.to_nat (hi - ci) <? N.to_nat (lo - ci))%nat eqn:E5; [lia|].
     destruct (N.to_nat (hi - first_of m) <? N.to_nat (lo - first_of m))%nat eqn:E6; [lia|].
-    assert (Hlen : length (e' :: t') = (length (e0 :: t0) - k)%nat).
-    { rewrite <- Hsk. apply skipn_length. }
-    destruct (length (e' :: t') <? N.to_nat (hi - ci))%nat eqn:E7;
-      destruct (length (e0 :: t0) <? N.to_nat (hi - first_of m))%nat eqn:E8;
+    subst m'. cbn [entries set_entries].
+    assert (Hlen : length (skipn k (entries m)) = (length (entries m) - k)%nat)
+      by apply skipn_length.
+    destruct (length (skipn k (entries m)) <? N.to_nat (hi - ci))%nat eqn:E7;
+      destruct (length (entries m) <? N.to_nat (hi - first_of m))%nat eqn:E8;
       try reflexivity; try (exfalso; subst k; lia).
-    cbn [bind snd]. rewrite <- Hsk, skipn_skipn'.
+    cbn [bind snd]. rewrite skipn_skipn'.
     replace (k + N.to_nat (lo - ci))%nat with (N.to_nat (lo - first_of m)) by (subst k; lia).
     replace (N.to_nat (hi - ci) - N.to_nat (lo - ci))%nat
       with (N.to_nat (hi - first_of m) - N.to_nat (lo - first_of m))%nat by lia.
